@@ -23,6 +23,7 @@ type PropConfig struct {
 	Bounded   []any    `json:"bounded"`
 	Note      string   `json:"note"`
 	NoFrame   bool     `json:"no_frame"`
+	YAMLTree  bool     `json:"yaml_tree_values"`
 	Functions []string `json:"functions"` // optional explicit list "pkg::Key"
 }
 
@@ -164,6 +165,7 @@ func cmdCheck(args []string) int {
 	}
 	s.noFrame = cfg.NoFrame
 	s.probeFalse = *probeFalse
+	s.yamlTree = cfg.YAMLTree
 	tLoad := time.Since(t0).Seconds()
 
 	// select contracts
